@@ -7,8 +7,8 @@ from ..models.pad import pad_axis
 
 ID = "C05"
 NEEDS_SHIM = False
-BUDGET = {"quick": 1200, "thorough": 40000}
-MIN_EVALS = {"quick": 1000, "thorough": 30000}
+BUDGET = {"quick": 2400, "thorough": 50000}
+MIN_EVALS = {"quick": 2000, "thorough": 40000}
 RULE = (
     "seeded random pads on face-connected grids: link tables are (a) geometric tables of Kx x Ky faces with random D4 "
     "orientations, (b) random reciprocal tables of 2-6 faces built by pairing free edge slots (all 8 link kinds, "
